@@ -68,6 +68,9 @@ pub struct Slow {
     pub discovery_ms: u32,
     pub pending_from: u8,
     pub pending_ms: u16,
+    /// the first bytes of each such write are accepted at once (0 = none)
+    #[serde(default)]
+    pub prefix: u8,
 }
 
 pub struct C06;
@@ -179,7 +182,12 @@ fn run_case(case: &Case) -> (sim::SimOutcome, Vec<Step>, bool, u64, u64) {
     if let Some(slow) = &case.slow {
         adapters.discovery_ms = slow.discovery_ms;
         transport.wscript = vec![sim::WStep::All; usize::from(slow.pending_from)];
-        transport.wscript.extend(std::iter::repeat(sim::WStep::PendingFor(slow.pending_ms)).take(8));
+        for _ in 0..6 {
+            if slow.prefix > 0 {
+                transport.wscript.push(sim::WStep::Prefix(u16::from(slow.prefix)));
+            }
+            transport.wscript.push(sim::WStep::PendingFor(slow.pending_ms));
+        }
     }
     let out = sim::run_sim(
         &case.cfg,
@@ -751,7 +759,12 @@ impl Check for C06 {
                         case.items = vec![Item::Legal; legal];
                         case.items.push(Item::Stall(35_000 + extra));
                         case.adapters.auth = AuthV::Echo;
-                        case.slow = Some(Slow { discovery_ms: 32_000 + u32::from(pending_ms) / 2, pending_from, pending_ms });
+                        // half of them: a few bytes of each write go out at once, the rest stays pending
+                        let prefix = if extra % 2 == 0 { 1 + (extra % 7) as u8 } else { 0 };
+                        // discovery completes during the pending write at the keep-alive deadline (32 s), or already during
+                        // the pending write of the first Keep Alive (16 s)
+                        let tick = if extra % 3 == 0 { 16_000 } else { 32_000 };
+                        case.slow = Some(Slow { discovery_ms: tick + u32::from(pending_ms) / 2, pending_from, pending_ms, prefix });
                     }
                     case
                 })
